@@ -641,6 +641,24 @@ class AbstractRowWriter(object):
             assert self.target_stream is not None
             self.close()
 
+    def _write_row_text(self, row_text, row_to_write):
+        """
+        Write ``row_text``, the text representing ``row_to_write``, to the target stream.
+
+        :raises cutplace.errors.DataFormatError: if ``row_text`` cannot be encoded
+        """
+        try:
+            target_encoding = getattr(self._target_stream, "encoding", None)
+            if target_encoding is not None:
+                # Ensure that the row can be encoded before anything of it reaches the stream. Otherwise a row that
+                # cannot be written would leave its traces, for example a missing byte order mark (UTF-16) or shift
+                # sequence (ISO-2022) in rows written later.
+                row_text.encode(target_encoding)
+            self._target_stream.write(row_text)
+        except UnicodeError as error:
+            # NOTE: Some encodings such as "idna" raise a plain UnicodeError instead of UnicodeEncodeError.
+            raise errors.DataFormatError("cannot write data row: %s; row=%s" % (error, row_to_write), self.location)
+
     @property
     def data_format(self):
         return self._data_format
@@ -702,10 +720,7 @@ class DelimitedRowWriter(AbstractRowWriter):
         self._delimited_writer.writerow(row_to_write)
         row_text = self._row_stream.getvalue()
         assert row_text.endswith("\r\n")
-        try:
-            self._target_stream.write(row_text[:-2] + self._line_delimiter)
-        except UnicodeEncodeError as error:
-            raise errors.DataFormatError("cannot write data row: %s; row=%s" % (error, row_to_write), self.location)
+        self._write_row_text(row_text[:-2] + self._line_delimiter, row_to_write)
         self._location.advance_line()
 
 
@@ -773,12 +788,10 @@ class FixedRowWriter(AbstractRowWriter):
                 )
             self.location.set_cell(0)
 
-        try:
-            self._target_stream.write("".join(row_to_write))
-        except UnicodeEncodeError as error:
-            raise errors.DataFormatError("cannot write data row: %s; row=%s" % (error, row_to_write), self.location)
+        row_text = "".join(row_to_write)
         if self._line_separator is not None:
-            self._target_stream.write(self._line_separator)
+            row_text += self._line_separator
+        self._write_row_text(row_text, row_to_write)
         self.location.advance_line()
 
 
